@@ -12,11 +12,13 @@ Definition of_rres (r : rres) : val :=
 
 Fixpoint nth_or (l : list N) (k : nat) (d : N) : N := match l, k with x :: _, O => x | _ :: t, S k' => nth_or t k' d | [], _ => d end.
 
+(* an empty table means: the file keeps a length beyond every range, no read is cut short *)
 Fixpoint model_polls (flens shorts : list N) (k : nat) (s : rstate) : list val :=
   match k with
   | O => []
   | S k' =>
-      let (s1, r) := read_poll (fun _ => 0) (fun i => nth_or flens i 0) (fun i => nth_or shorts i 0) s in
+      let (s1, r) := read_poll (fun _ => 0) (fun i => match flens with [] => U64 | _ => nth_or flens i 0 end)
+                               (fun i => match shorts with [] => U64 | _ => nth_or shorts i 0 end) s in
       of_rres r :: model_polls flens shorts k' s1
   end.
 
@@ -25,10 +27,32 @@ Fixpoint obs_total (p : list val) : N :=
   match p with VL [VN 0; VN n; _] :: t => n + obs_total t | _ :: t => obs_total t | [] => 0 end.
 Definition obs_has (code : N) (p : list val) : bool :=
   existsb (fun v => match v with VL (VN c :: _) => c =? code | _ => false end) p.
+(* every chunk is non-empty and carries the file's bytes (ok = 1: compared by the harness); the size of
+   a chunk is the implementation's business ("independent of the internal read size") *)
 Definition obs_chunks_ok (p : list val) : bool :=
-  forallb (fun v => match v with VL [VN 0; VN n; VN ok] => (1 <=? n) && (n <=? 65536) && (ok =? 1) | _ => true end) p.
+  forallb (fun v => match v with VL [VN 0; VN n; VN ok] => (1 <=? n) && (ok =? 1) | _ => true end) p.
 Fixpoint before_end (p : list val) : list val :=
   match p with VL [VN 2] :: _ => [] | x :: t => x :: before_end t | [] => [] end.
+(* the polls up to and including the first terminal event (error or end): what a finished or failed
+   stream answers afterwards is not part of the property *)
+Fixpoint upto_terminal (p : list val) : list val :=
+  match p with
+  | [] => []
+  | VL [VN 1] :: _ => [VL [VN 1]]
+  | VL [VN 2] :: _ => [VL [VN 2]]
+  | x :: t => x :: upto_terminal t
+  end.
+(* (bytes delivered before the first terminal event, its kind: 0 none, 1 error, 2 end) *)
+Fixpoint summary (p : list val) : N * N :=
+  match p with
+  | [] => (0, 0)
+  | VL [VN 1] :: _ => (0, 1)
+  | VL [VN 2] :: _ => (0, 2)
+  | VL (VN 0 :: VN n :: _) :: t => let (b, k) := summary t in (n + b, k)
+  | _ :: t => summary t
+  end.
+Definition F_F_TOTAL := bs "file.total".
+Definition F_F_END := bs "file.end".
 
 Definition run_file (v : val) : val :=
   match v with
@@ -43,12 +67,22 @@ Definition run_file (v : val) : val :=
           | Some ent, VL [VN 1; oetag; olen; omtime; VL opolls] =>
               let mpolls := model_polls flens shorts (N.to_nat np) {| r_start := a; r_end := e; r_reads := 0 |} in
               let opolls2 := map (fun v => match v with VL [VN 0; n; _] => VL [VN 0; n] | x => x end) opolls in
+              (* framing-independent comparison: the model is polled far enough to reach its terminal event *)
+              (* (used for files that are not truncated: every read sees the full length and is not cut short) *)
+              let mext := model_polls [] [] (N.to_nat ((e - a) / 65536) + 4) {| r_start := a; r_end := e; r_reads := 0 |} in
+              let opolls := upto_terminal opolls in
               let truncated := existsb (fun l => l <? e) flens in
               let tag := if truncated then bs "truncated" else if a =? e then bs "empty-range" else bs "intact" in
               VL (finding K_TAG tag (VL []) (VL [])
                   :: cmp_field F_F_META (VL [VB (crf_etag ent); VN (crf_len ent); VN (crf_last_modified ent)]) (VL [oetag; olen; omtime])
                   ++ cmp_field F_F_POLLS (VL mpolls) (VL opolls2)
-                  ++ (if obs_chunks_ok opolls then [] else [fclause "chunks-non-empty-at-most-64KiB-and-the-file-bytes"])
+                  ++ (let (ob, ok) := summary opolls in
+                      (* when the file is truncated under the stream, where the failure lands depends on how the
+                         reads are cut: the oracle below states what is required then *)
+                      if (ok =? 0) || truncated then [] else
+                      let (mb, mk) := summary mext in
+                      cmp_field F_F_END (VN mk) (VN ok) ++ (if (ok =? 2) && (mk =? 2) then cmp_field F_F_TOTAL (VN mb) (VN ob) else []))
+                  ++ (if obs_chunks_ok opolls then [] else [fclause "chunks-non-empty-and-the-file-bytes"])
                   ++ (if negb truncated then
                         (if obs_has 2 opolls && negb (obs_has 1 (before_end opolls)) && (obs_total (before_end opolls) =? e - a) then []
                          else [fclause "intact-file-yields-exactly-the-range-then-ends"])
